@@ -268,12 +268,20 @@ def use_kinds(s, name, a, b, decl_off, decl_end):
 
 RO_SECT = re.compile(r"^(\.rodata|\.data\.rel\.ro)")
 
-def classify(name, sect, is_const=None, opt_sects=None):
-    """opt_sects: sections of the same static in the optimised (-O2) object, if any."""
+GEN_BSS_TABLE_RE = re.compile(r"^asn_(PER|OER)_(type|memb)_\w+_constr_\d+$")
+
+def classify(name, sect, is_const=None, opt_sects=None, generated=False):
+    """opt_sects: sections of the same static in the optimised (-O2) object, if any.
+    A "table" must match the descriptor/table name patterns, be a file-scope object and be *initialised*
+    data (.data*): a zero-initialised or function-local object named `..._specs` is not a table.
+    (generated module objects: all-zero `asn_OER/PER_*_constr_N` records land in .bss.)"""
+    local = bool(re.search(r"\.\d+$", name))
     base = re.sub(r"\.\d+$", "", name)
     if sect is not None and RELRO_SECT.match(sect): return "relro"
     if is_const: return "relro"
-    if TABLE_RE.match(base): return "table"
+    if TABLE_RE.match(base) and not local:
+        if sect is None or sect.startswith(".data"): return "table"
+        if generated and GEN_BSS_TABLE_RE.match(base): return "table"
     if opt_sects and all(RO_SECT.match(x) for x in opt_sects): return "unwritten"
     return "mutable"
 
@@ -337,7 +345,7 @@ def inventory(srcs_objs, srcs_objs_opt=None):
         # source-only hits (not compiled here, or under an inactive #if)
         for fn, name, is_const, off, a, b, dend in hits:
             q = (fn + "::" + name) if fn else name
-            c = classify(name, None, is_const)
+            c = classify(name + ".0" if fn else name, None, is_const)
             if (fn, name) in seen_src:
                 if (fname, q) in globs: globs[(fname, q)]["how"].add("source")
                 continue
@@ -443,7 +451,7 @@ def scan_objects(objs):
         syms, _, _ = nm_objects(o)
         for name, sect, cls, bind in syms:
             if WRITABLE_SECT.match(sect):
-                out.append((os.path.basename(o), name, classify(name, sect)))
+                out.append((os.path.basename(o), name, classify(name, sect, generated=True)))
     return out
 
 if __name__ == "__main__":
